@@ -60,7 +60,18 @@ def configs(ctx):
     for _ in range(40 if ctx.tier == "quick" else 600):
         sp = ctx.rng.sample(POOL, 8)
         out.append(dict(zip(IDS, sp)))
-    return [c for c in out if valid(c)]
+    # role swaps: the same set of spellings assigned the other way round, in the same process right after the
+    # original (two environments whose rule *patterns* coincide while the roles differ)
+    swapped = []
+    for cfg in out:
+        swapped.append(cfg)
+        diff = [(i, j) for i in IDS for j in IDS if i < j and len(cfg[i]) != len(cfg[j])]
+        if diff and (ctx.tier != "quick" or ctx.rng.random() < 0.25):
+            i, j = ctx.rng.choice(diff)
+            sw = dict(cfg)
+            sw[i], sw[j] = cfg[j], cfg[i]
+            swapped.append(sw)
+    return [c for c in swapped if valid(c)]
 
 
 def gen(ctx):
